@@ -47,6 +47,12 @@ def _rows(inst, L):
     a = np.array([1.0, 2.0, -1.0][:n])
     b = np.array([1.0, -1.0, 0.0][:n])
     k = inst["rows"]
+    if k == "explicit":
+        aub = np.array(inst["xaub"], float).reshape(-1, n)
+        bub = np.array(inst["xbub2"], float) / 2.0 * L
+        aeq = np.array(inst["xaeq"], float).reshape(-1, n)
+        beq = np.array(inst["xbeq2"], float) / 2.0 * L
+        return aub, bub, aeq, beq
     if k == "none":
         aub, bub = np.zeros((0, n)), np.zeros(0)
     elif k == "inactive":
@@ -166,11 +172,15 @@ def _calls(inst):
         xpt = np.array([[1.0 if i == j else 0.0 for j in range(n)] for i in range(n)]) * L
         extra = np.array([[1.0] * n, [(-2.0 if i == 0 else 1.0) for i in range(n)]]).T * L
         xpt = np.hstack([xpt, extra])
-        try:
-            s = spider_geometry(0.0, g, curv, xpt, xl.copy(), xu.copy(), delta, False)
-            rec("spider_geometry", "max", s, "none", 0.0, abs(q(s)), band_q(s))
-        except Exception as ex:
-            rec("spider_geometry", "max", None, type(ex).__name__, 0.0, 0.0, 0.0)
+        for const in (0.0, 1.0 * L, -0.5 * L):
+            try:
+                s = spider_geometry(const, g, curv, xpt, xl.copy(), xu.copy(), delta, False)
+                if const == 0.0:
+                    rec("spider_geometry", "max", s, "none", 0.0, abs(q(s)), band_q(s))
+                else:
+                    rec("spider_geometry_c", "max", s, "none", abs(const), abs(const + q(s)), band_q(s) + 4 * EPS * abs(const))
+            except Exception as ex:
+                rec("spider_geometry", "max", None, type(ex).__name__, 0.0, 0.0, 0.0)
     return out
 
 
@@ -220,7 +230,7 @@ def run_universe(tier):
     insts = []
     sizes = {}
     for uid, kq in (("bd1", 400), ("bd2", 1200), ("bd2s", 400), ("bd3", 800), ("lin2", 1200), ("lin3", 800),
-                    ("lin2p", 1000), ("lin3p", 1500)):
+                    ("lin2p", 1000), ("lin3p", 1500), ("bd3r", 2500), ("nrm2", 2500)):
         U = universe(uid)
         sizes[uid] = len(U)
         if tier != "thorough" and len(U) > kq:
